@@ -467,7 +467,14 @@ var guardedFields = []string{"callbacks", "callbacksAll", "callbackID"}
 
 // guardedMapValue: v is a map loaded from a guarded field, or an inner map looked up from one.
 func guardedMapValue(v ssa.Value) bool {
+	return guardedMapValueRec(v, map[ssa.Value]bool{})
+}
+
+func guardedMapValueRec(v ssa.Value, seen map[ssa.Value]bool) bool {
 	for i := 0; i < 6; i++ {
+		if seen[v] {
+			return true
+		}
 		switch x := v.(type) {
 		case *ssa.UnOp:
 			if o, n, _, ok := fieldOfLoad(x); ok && o == "Connection" && (n == "callbacks" || n == "callbacksAll") {
@@ -478,6 +485,23 @@ func guardedMapValue(v ssa.Value) bool {
 			v = x.X
 		case *ssa.Extract:
 			v = x.Tuple
+		case *ssa.Phi:
+			// `m, ok := c.callbacks[t]; if !ok { m = map…{}; c.callbacks[t] = m }`
+			seen[x] = true
+			for _, e := range x.Edges {
+				if !guardedMapValueRec(e, seen) {
+					return false
+				}
+			}
+			return true
+		case *ssa.MakeMap:
+			// a fresh inner map that is installed in a guarded map
+			for _, r := range *x.Referrers() {
+				if mu, ok := r.(*ssa.MapUpdate); ok && mu.Value == ssa.Value(x) && guardedMapValueRec(mu.Map, seen) {
+					return true
+				}
+			}
+			return false
 		default:
 			return false
 		}
@@ -764,11 +788,20 @@ func r13_4(c *Ctx) {
 				}
 			case isOuter(m):
 				// delete(callbacks, event) only under len(callbacks[event]) == 0, with the registration's event
-				lk, isLk := insert.Map.(*ssa.Lookup)
-				if !isLk || !capturedSame(k, lk.Index) {
+				idxs := innerMapIndexes(insert.Map)
+				if len(idxs) == 0 {
 					okAll = false
 					break
 				}
+				for _, ix := range idxs {
+					if !capturedSame(k, ix) {
+						okAll = false
+					}
+				}
+				if !okAll {
+					break
+				}
+				lk := struct{ Index ssa.Value }{idxs[0]}
 				g := false
 				for _, ifi := range ifsIn(fn) {
 					op, kk, succ, ok := cmpConstEdge(ifi, func(v ssa.Value) bool {
@@ -823,10 +856,7 @@ func isInnerOrAll(m ssa.Value) bool {
 	if _, n, _, ok := fieldOfLoad(m); ok && n == "callbacksAll" {
 		return true
 	}
-	if lk, ok := m.(*ssa.Lookup); ok && isOuter(lk.X) {
-		return true
-	}
-	return false
+	return len(innerMapIndexes(m)) > 0
 }
 
 func sameMapExpr(a, b ssa.Value, capturedSame func(v, pv ssa.Value) bool) bool {
@@ -834,12 +864,67 @@ func sameMapExpr(a, b ssa.Value, capturedSame func(v, pv ssa.Value) bool) bool {
 		_, n2, _, ok2 := fieldOfLoad(b)
 		return ok2 && n2 == "callbacksAll"
 	}
-	la, ok1 := a.(*ssa.Lookup)
-	lb, ok2 := b.(*ssa.Lookup)
-	if ok1 && ok2 && isOuter(la.X) && isOuter(lb.X) {
-		return capturedSame(la.Index, lb.Index)
+	ia, ib := innerMapIndexes(a), innerMapIndexes(b)
+	if len(ia) == 0 || len(ib) == 0 {
+		return false
 	}
-	return false
+	for _, x := range ia {
+		for _, y := range ib {
+			if !capturedSame(x, y) {
+				return false
+			}
+		}
+	}
+	return true
+}
+
+// innerMapIndexes: v denotes callbacks[k] (a lookup, its comma-ok form, a fresh map installed as
+// callbacks[k], or a phi of those); returns the index expressions k (nil if v is something else).
+func innerMapIndexes(v ssa.Value) []ssa.Value {
+	var out []ssa.Value
+	seen := map[ssa.Value]bool{}
+	ok := true
+	var walk func(v ssa.Value)
+	walk = func(v ssa.Value) {
+		if seen[v] {
+			return
+		}
+		seen[v] = true
+		switch x := v.(type) {
+		case *ssa.Lookup:
+			if isOuter(x.X) {
+				out = append(out, x.Index)
+				return
+			}
+		case *ssa.Extract:
+			if lk, isLk := x.Tuple.(*ssa.Lookup); isLk && x.Index == 0 {
+				walk(lk)
+				return
+			}
+		case *ssa.Phi:
+			for _, e := range x.Edges {
+				walk(e)
+			}
+			return
+		case *ssa.MakeMap:
+			n := 0
+			for _, r := range *x.Referrers() {
+				if mu, isMu := r.(*ssa.MapUpdate); isMu && mu.Value == ssa.Value(x) && isOuter(mu.Map) {
+					out = append(out, mu.Key)
+					n++
+				}
+			}
+			if n == 1 {
+				return
+			}
+		}
+		ok = false
+	}
+	walk(v)
+	if !ok {
+		return nil
+	}
+	return out
 }
 
 func r13_5(c *Ctx) {
